@@ -3,6 +3,9 @@
 (1) MC + IX: MC_RunFilter enumerates every boolean array up to length N and every min_n_cycles, runs the
     scanning state machine, checks C08 / agreement of the three definitions on the specification, and
     compares with the table of outputs of the REAL check_min_burst_cycles for the same inputs.
+(P) PROOF: RunFilterProof.tla (TLAPS, 63 obligations): for boolean arrays of ANY length the maximal run through an index is unique, a
+    whole maximal run is kept exactly when it is long enough (so kept or cleared entirely), nothing turns FALSE -> TRUE, and raising
+    min_n_cycles only removes labels.
 (2) TV: random long arrays (to 2000 elements, run-length distributions around min_n_cycles) through the
     real function twice; Trace_RunFilter judges every recorded call.
 """
@@ -12,6 +15,7 @@ from multiprocessing import Pool
 
 import numpy as np
 
+import tlaps
 import tlc
 
 LEVEL = 'model_checking'
@@ -150,6 +154,9 @@ def run_tv(ctx, n_cases, max_len):
     ctx.sample({'trace_case': {'len': len(recs[0]['b']), 'm': recs[0]['m'], 'first_32': [int(x) for x in recs[0]['b'][:32]]}})
 
 
+PROOF_THEOREMS = ['NoFalseToTrue', 'RunThroughAnIndexIsUnique', 'WholeRunsShareOneFate', 'KeptIffLongEnough', 'MonotoneInTheMinimum']
+
+
 def run(ctx):
     ctx.rule = ('MC/IX: every boolean array of length 0..N x every min_n_cycles 0..M (TLC enumerates; the real function '
                 'is run on each; non-trivial = has a run shorter than min_n_cycles); TV: random long arrays with run '
@@ -157,9 +164,11 @@ def run(ctx):
     ctx.assumptions = ['TLC and the projection (bit masks of boolean arrays) are trusted']
     if ctx.quick:
         run_mc(ctx, 11, 12)
+        tlaps.run_proof(ctx, 'RunFilterProof', PROOF_THEOREMS)
         run_tv(ctx, 300, 1500)
     else:
         run_mc(ctx, 15, 16)
+        tlaps.run_proof(ctx, 'RunFilterProof', PROOF_THEOREMS)
         run_tv(ctx, 3000, 2000)
 
 
